@@ -686,3 +686,81 @@ def run(res, tier):
     leaf_centre(facts, res, cobj, geo)
     res.rule("C05.6 level-uniform operators: the level argument of M2M / M2L / L2L reaches width and scale arithmetic only (no branch, loop bound or selection depends on it); the kernel names no executor boundary level")
     level_uniform(facts, res, K, "C05.6.level-uniform")
+
+
+DEFINE_CALLS = {"copyall": 0, "setall": 0, "memcpy": 0, "memset": 0, "copy": 2, "fill": None, "fill_n": 0}
+
+
+def per_item_buffers(facts, res, kcls, R, ops=("M2M", "M2L", "L2L", "P2M", "L2P")):
+    """Each item an operator is handed (a child, a transfer source, a particle) is processed on its own: what is computed for item i may
+    depend on the operator's inputs and on the tables subscripted by item i's position code, never on which items came before it - the
+    executors hand an operator any subset of a cell's children / sources (only those that exist, only those of one group), in any split.
+    Decided on the scratch arrays: a local array declared outside an item loop and WRITTEN inside it must be, in every iteration, fully
+    redefined at the top level of the loop body (copyall / setall / memcpy / memset / std::copy with the array as destination) before
+    anything else touches it; a redefinition under a condition leaves the previous item's values for the items where the condition fails."""
+    n = 0
+    for op in ops:
+        for m in [m_ for m_ in facts.methods_of(kcls) if m_["name"] == op and tbf.body(m_) is not None and not m_.get("inst")]:
+            body = tbf.body(m)
+            tbf.link_parents(body)
+            arrays = {}
+            for v in walk(body):
+                if v.get("k") == "VarDecl" and (re.search(r"\[\w*\]", v.get("t", "")) or re.search(r"\b(array|vector)<", v.get("t", ""))):
+                    arrays[v["did"]] = v
+            loops = [l for l in kids(body) if l.get("k") in ("ForStmt", "WhileStmt", "CXXForRangeStmt")]
+            # top-level statements may sit in one more compound level (if constexpr ...): take the outermost loops of the function
+            if not loops:
+                loops = [l for l in walk(body) if l.get("k") in ("ForStmt", "WhileStmt", "CXXForRangeStmt") and not any(a.get("k") in ("ForStmt", "WhileStmt", "CXXForRangeStmt") for a in tbf.ancestors(l))]
+            for lp in loops:
+                lb = [x for x in lp["c"] if x is not None][-1]
+                inside = set(id(x) for x in walk(lp))
+                for did, v in arrays.items():
+                    if id(v) in inside:
+                        continue          # declared in the loop: one per iteration
+                    refs = sorted([x for x in walk(lb) if x.get("k") == "DeclRefExpr" and x.get("did") == did], key=lambda x: x.get("b", 0))
+                    if not refs:
+                        continue
+
+                    def writes(r_):
+                        for a in tbf.ancestors(r_):
+                            if a.get("k") in ("CallExpr", "CXXMemberCallExpr"):
+                                return True        # handed to a function: may be written (the rotation helpers work in place)
+                            if a.get("k") in ("BinaryOperator", "CompoundAssignOperator") and a.get("op", "").endswith("=") and a.get("op") not in ("==", "!=", "<=", ">="):
+                                return any(z is r_ for z in walk(kids(a)[0]))
+                            if a is lb:
+                                break
+                        return False
+                    if not any(writes(r_) for r_ in refs):
+                        continue          # only read in the loop: loop invariant
+                    n += 1
+                    first = refs[0]
+                    top = None
+                    for a in [first] + list(tbf.ancestors(first)):
+                        if a.get("_p") is lb:
+                            top = a
+                            break
+                    st = strip(top) if top is not None else None
+                    ok = False
+                    if st is not None and st.get("k") in ("CallExpr", "CXXMemberCallExpr") and tbf.callee_name(st) in DEFINE_CALLS:
+                        pos = DEFINE_CALLS[tbf.callee_name(st)]
+                        args = tbf.call_args(st)
+                        dest = args[pos] if pos is not None and pos < len(args) else (args[0] if args else None)
+                        ok = dest is not None and any(z is first for z in walk(dest))
+                    res.instance(R, "%s::%s %s@%d" % (kcls, op, v.get("name"), lp["l"][1]), facts.loc(v), "declared outside the item loop, written in it; first use in an iteration: `%s`" % facts.ntext(top if top is not None else first)[:70])
+                    # a first touch that is not one of the known whole-array definitions (a helper that fills the array, a fill loop) is taken
+                    # as this iteration's definition when it is unconditional; what the rule decides is the conditional case: the first touch
+                    # sits under a run-time condition and the array is used outside that condition as well
+                    cond0 = [a for a in tbf.ancestors(first) if a.get("k") == "IfStmt" and id(a) in inside and not a.get("constexpr")]
+                    if not ok and not cond0:
+                        ok = True
+                    elif not ok:
+                        outer = cond0[-1]
+                        under = set(id(z) for z in walk(outer))
+                        ok = all(id(r_) in under for r_ in refs)
+                    if not ok:
+                        cond = [a for a in tbf.ancestors(first) if a.get("k") == "IfStmt" and id(a) in inside]
+                        res.violation(R, tbf.rel(facts.path_of(first)), m["qname"], "carried:%s" % v.get("name"), first["l"][1],
+                                      "the scratch array '%s' outlives the iterations of the item loop and is not fully redefined at the start of each one (%s): what item i sees there depends on the items before it, "
+                                      "and the operator is handed any subset of a cell's items (only the children that exist, only those of one group) - the result is right only for the item sequences where the carried values happen to fit"
+                                      % (v.get("name"), ("its redefinition is under `%s`" % facts.ntext([y for y in kids(cond[0]) if y.get("k") != "DeclStmt"][0])[:60]) if cond else "first touched by `%s`" % facts.ntext(top if top is not None else first)[:50]))
+    return n
